@@ -469,16 +469,20 @@ func (vm *VM) Step(sc *SimConfig) (string, error) {
 		vm.wait_proc = vm.wait_proc - 1
 	}
 
+	// The processors answer in any order: their reports are appended in processor order
+	proc_results := make([]string, len(vm.Processors))
 	for {
 		i := <-vm.recv_chan
-		proc_result := <-vm.result_chans[i]
-		if proc_result != "" {
-			result += "\tProc: " + strconv.Itoa(i) + "\n"
-			result += proc_result
-		}
+		proc_results[i] = <-vm.result_chans[i]
 		vm.wait_proc = vm.wait_proc + 1
 		if vm.wait_proc == len(vm.Processors) {
 			break
+		}
+	}
+	for i, proc_result := range proc_results {
+		if proc_result != "" {
+			result += "\tProc: " + strconv.Itoa(i) + "\n"
+			result += proc_result
 		}
 	}
 
